@@ -247,7 +247,7 @@ def get_attr(self, base, name, fr, node=None):
         return T.mk_call('T', [base])
     if name in ('real', 'imag'):
         return T.mk_call(name, [base])
-    if name == 'shape':
+    if name == 'shape' and ci is None:
         return shape_of(base)
     if name in ('unix', 'mjd') and at is not None and at.kind == 'call' and at.args[0] == 'Time':
         args, kw = at.args[1], dict(at.args[2])
